@@ -201,6 +201,9 @@ def shrink(line, want, wd, budget=40):
     """greedy shrink of the hex fields of a failing case keeping verdict class `want`"""
     lhs = lhs_of(line).split(" ")
     best = lhs
+    if any(t.startswith(("canon=", "exp=")) and len(t) > 8 for t in lhs):
+        # the case carries its own oracle (expected output of this very text): it cannot be cut
+        budget = 0
     for _ in range(budget):
         cands = []
         for i, tok in enumerate(best):
